@@ -31,6 +31,8 @@ ITEMS = {
     "enum_alias": "enum Dup { D1 = 1, D2 = 1, D3 = 2 };",
     "anon_enum": "enum { AA = 1, BB };",
     "anon_flag": "flag { PERM_R = 1, PERM_W = 2, PERM_RW = 3 };",
+    "empty_enum": "enum Em { };\nflag Fm : uint8 { };",
+    "inline_shadows_global": "struct Sh { uint32 g; };\nstruct ShA { struct Sh { uint8 k; } x; uint8 t; };\nstruct ShB { Sh y; };",
     "anon_enum_typed": "enum : uint8 { TA = 200, TB };",
     "typedef_scalar": "typedef uint16 word; typedef word word2; struct L { word w; word2 w2; };",
     "typedef_struct": "typedef struct _M { uint8 a; } M, M2;",
@@ -353,6 +355,8 @@ def special(tier) -> JobResult:
     cases = {
         "add_type-string-alias": ("struct A { uint8 a; };", lambda cs: cs.add_type("myalias", "uint32")),
         "add_type-struct-alias": ("struct A { uint8 a; };", lambda cs: cs.add_type("A2", cs.A)),
+        "add_type-multiword-string-alias": ("struct A { uint8 a; };", lambda cs: (cs.add_type("mw1", "unsigned int"), cs.add_type("mw2", "signed char"), cs.add_type("mw3", "unsigned long long"))),
+        "add_type-string-alias-of-user-type": ("struct A { uint8 a; };", lambda cs: cs.add_type("A3", "A")),
         "alias-of-array-typedef": ("typedef uint8 arr4[4]; typedef arr4 arr4b; struct O { arr4b a; };", None),
         "alias-of-pointer-typedef": ("typedef uint8 *bptr; typedef bptr bptr2; struct O { bptr2 a; };", None),
         "pointer-to-anon-struct": ("struct H { struct { uint8 x; } *p; };", None),
